@@ -38,7 +38,10 @@ def terminated(obs, oid, kind, h, stim):
     req_complete = steps[c][0].startswith('RECV:') and steps[c][0].split(':')[1] in ('REQUEST_CHANNEL', 'PAYLOAD') and steps[c][0].split(':')[3][1] == '1'
     recv_closed = our_cancel or any(t.startswith('OC') or t.startswith('OE') or (t.startswith('ON') and t.endswith(':1')) for t in toks) or \
         (kind == 'chResp' and (not subscribed or req_complete or peer_term))
-    send_closed = (not has_pub) or pub_term or peer_cancel
+    # the library itself cancelled the application's publisher (PX): that direction will never produce anything again, so it is over - on the
+    # unchanged tree this happens only together with the end of the sending direction (peer CANCEL) or of the connection
+    lib_cancelled_pub = any(t.startswith('PX') for t in toks)
+    send_closed = (not has_pub) or pub_term or peer_cancel or lib_cancelled_pub
     return recv_closed and send_closed
 
 
